@@ -378,6 +378,14 @@ def check_signer(ctx, S, M, rng, w):
     try:
         if form == 'default':
             if M.default_id is None:
+                if not kc.has_default_identity():
+                    # nothing to select: no signer of any kind may be handed out for the default signing arguments
+                    try:
+                        sg = kc.get_signer({})
+                    except Exception:   # noqa
+                        ctx.event('signer-no-default-refused')
+                        return
+                    ctx.report('signer-without-default-identity', f'get_signer({{}}) returned {type(sg).__name__} although the store has no default identity', dict(w, form=form))
                 return
             idn = M.default_id
             i = M.ids[idn]
@@ -969,6 +977,15 @@ def scripted_defaults(ctx, rng):
                 check_invariants(ctx, S, M, w, f'{op[0]} (scripted history, step {step[0]})')
                 if op[0] != 'reopen':
                     check_signer(ctx, S, M, rng, w)
+            def no_default_probe(when):
+                if not S.kc.has_default_identity():
+                    try:
+                        sg = S.kc.get_signer({})
+                    except Exception:   # noqa
+                        ctx.event('signer-no-default-refused')
+                        return
+                    ctx.report('signer-without-default-identity', f'get_signer({{}}) returned {type(sg).__name__} on a store without default identity ({when})', {'scripted': True})
+            no_default_probe('fresh store')
             for idn in (A, B, Cn):
                 do(('touch', idn))
             ka = next(iter(M.ids[A]['keys']))
@@ -1009,6 +1026,11 @@ def scripted_defaults(ctx, rng):
             do(('del_identity', Cn))
             do(('reopen',))
             do(('del_identity', A))
+            for idn in list(M.ids):
+                do(('del_identity', idn))
+            no_default_probe('every identity deleted')
+            do(('reopen',))
+            no_default_probe('every identity deleted, store reopened')
             ctx.event('scripted-defaults-history')
             ctx.case(('scripted-defaults', rep), nontrivial=True)
             S.close()
